@@ -171,8 +171,8 @@ def decideName (ps : List Pat) (name : Str) : Decision :=
 /-! ### roots, staging, clean
 
 A root is an association list table name -> content id (the harness maps table hashes to small
-numbers).  Renames (which dolt detects by overlapping column tags) are not modelled: a delta is
-per name. -/
+numbers).  In this file a delta is per name; table renames (which dolt detects by overlapping
+column tags) are modelled in `Model/IgnoreRename.lean` on roots that also carry an identity. -/
 
 structure Entry where
   name : Str
